@@ -141,6 +141,7 @@ class Recorder:
         self.setups = []
         self.setups_skipped = 0
         self.couplings = []
+        self.ligands = []
 
     def __enter__(self):
         import propka.conformation_container as CC
@@ -159,6 +160,9 @@ class Recorder:
                 cr = coupling_request(conf) if conf.groups else None
                 if cr is not None:
                     rec.couplings.append((conf.name,) + cr)
+                    lr = ligand_request(conf, cr)
+                    if lr is not None:
+                        rec.ligands.append((conf.name,) + lr)
                 if getattr(conf.parameters, "common_charge_centre", 0):
                     rec.setups_skipped += 1
                 else:
@@ -256,6 +260,31 @@ def coupling_request(conf):
     glines = ["%d|%d" % (idx[id(g.atom)], 1 if g.titratable else 0) for g in conf.groups]
     real = ";".join(nats([gidx[id(c)] for c in g.covalently_coupled_groups if id(c) in gidx]) for g in conf.groups)
     return ("setup cov %s %d %s" % (";".join(alines) or "-", int(conf.parameters.coupling_max_number_of_bonds), ";".join(glines) or "-"), real)
+
+
+def ligand_request(conf, coupling_req):
+    """request for the ligand-classification model (same atom table as the coupling request: SYBYL type in the name field) and
+    the real classes: for every hetero atom that is no ion, the class name of the group it defines ('-' if none)"""
+    if coupling_req is None or getattr(conf.parameters, "ligand_typing", "") != "groups":
+        return None
+    atoms = list(conf.atoms)
+    ions = set(conf.parameters.ions.keys())
+    gof = {}
+    for g in conf.groups:
+        gof[id(g.atom)] = g
+    qs, real = [], []
+    for i, a in enumerate(atoms):
+        if a.type != 'hetatm' or a.element == 'H' or a.res_name.strip() in ions:
+            continue
+        g = gof.get(id(a))
+        if g is not None and type(g).__name__ in ("NtermGroup", "CtermGroup"):
+            continue
+        qs.append(str(i))
+        real.append(hx(type(g).__name__) if g is not None else "-")
+    if not qs:
+        return None
+    atab = coupling_req[0].split(" ")[2]
+    return ("setup lig %s %s" % (atab, ",".join(qs)), ";".join(real))
 
 
 def check_setups(setups):
@@ -379,6 +408,25 @@ class tie:
         ctx.oblige("correspondence: Lean covalent-coupling model (find_covalently_coupled_groups: titratable groups within the configured number of "
                    "bonds and of equal SYBYL type, coupled in the order the code couples them) = real coupling lists of %d conformations" % len(csample),
                    not cbad, str(cbad[:2])[:400])
+        seen4, lsample = set(), []
+        for l in self.rec.ligands:
+            if hash(l[1]) not in seen4:
+                seen4.add(hash(l[1]))
+                lsample.append(l)
+        lsample = lsample[:self.limit]
+        lbad, natoms = [], 0
+        if lsample:
+            louts = common.driver_batch([l[1] for l in lsample])
+            for l, o in zip(lsample, louts):
+                natoms += len(l[2].split(";"))
+                if o != l[2]:
+                    d = [(i, bytes.fromhex(x).decode() if x != "-" else None, bytes.fromhex(y).decode() if y not in ("-", "bad-op") else None)
+                         for i, (x, y) in enumerate(zip(l[2].split(";"), o.split(";"))) if x != y][:3]
+                    lbad.append((l[0], d))
+        ctx.count("ligand classification: hetero atoms compared with the Lean model", natoms)
+        if lsample:
+            ctx.oblige("correspondence: Lean ligand-classification model (is_ligand_group_by_groups on SYBYL types and bonds) = class of the group "
+                       "each hetero atom defines (%d atoms in %d conformations)" % (natoms, len(lsample)), not lbad, str(lbad[:2])[:400])
         ctx.oblige("correspondence: Lean set-up model (setup_atoms of every group class, set_center, ring search) = real groups: centre (bit "
                    "patterns) and both interaction-atom lists of %d groups in %d conformations" % (ns, len(ssample)),
                    not sbad, "; ".join("%s %s: %s" % b for b in sbad[:3])[:500])
